@@ -39,7 +39,14 @@ class ProgGen(Gen):
 
     def finish(self, f, cx, body):
         if f.results and not (body and isinstance(body[-1], Return)):
-            body.append(Return([self.expr(cx, r.ty, 2) for r in f.results]))
+            if f.named_results and self.rng.random() < 0.7:
+                # named results + bare return
+                for rv in f.results:
+                    body.append(Assign([VarRef(rv)], [self.expr(cx, rv.ty, 2)]))
+                body.append(Return([]))
+                self.feat.add('bare-return')
+            else:
+                body.append(Return([self.expr(cx, r.ty, 2) for r in f.results]))
         f.body = body
         f.cost = cx.cost + 3
 
@@ -53,7 +60,8 @@ class ProgGen(Gen):
             params.append(('slice', tint(self.kind())))
         nres = r.choice([1, 1, 1, 2, 0] if not pure else [1, 1, 1, 2])
         results = [self.simple_type(0) if r.random() < 0.4 else tint(self.kind()) for _ in range(nres)]
-        f = self.new_func('F%d' % len(self.P.funcs), pure, params, results)
+        named = bool(results) and r.random() < 0.25
+        f = self.new_func('F%d' % len(self.P.funcs), pure, params, results, named=named)
         for t in params + results:
             f.pkg = max(f.pkg, self.type_pkg(t))
         self.cur_pkg = max(self.cur_pkg, f.pkg)
@@ -110,6 +118,24 @@ class ProgGen(Gen):
         self.P.add_func(w)
         self.pure_funcs.append(w)
         return w
+
+    def make_variadic(self):
+        """func V(a K, xs ...K) K  (pure): folds its variadic arguments"""
+        r = self.rng
+        k = tint(self.kind())
+        f = self.new_func('V%d' % len(self.P.funcs), True, [k, ('slice', k)], [k])
+        f.variadic = True
+        a, xs = f.params
+        xs.noappend = True
+        x, i = Var(self.P.slot(), 'x', k), Var(self.P.slot(), 'i', INT)
+        op = r.choice(['add', 'xor', 'sub', 'mul'])
+        f.body = [RangeSeq('', i, x, VarRef(xs), [Assign([VarRef(a)], [Bin(op, Bin('add', VarRef(a), Conv(k, VarRef(i))), VarRef(x))])]),
+                  Return([Bin('add', VarRef(a), Conv(k, LenCap('len', VarRef(xs))))])]
+        f.cost = 20
+        self.P.add_func(f)
+        self.pure_funcs.append(f)
+        self.feat.add('variadic-func')
+        return f
 
     def make_counter(self):
         """a function returning a closure over its own local: each result has private state"""
@@ -262,6 +288,7 @@ class ProgGen(Gen):
         d1.impls = []
         P.add_type(d1)
         self.ifaces.append(d1)
+        self.iface_ma = d1
         d2 = TypeDecl('%sI%d' % (self.pfx, len(P.types)), 'iface', d1.pkg)
         d2.methods = [('Ma', [], [k]), ('Mb', [k], [])]
         d2.pure_methods = {'Ma': True, 'Mb': False}
@@ -331,9 +358,35 @@ class ProgGen(Gen):
             f.pure = True
             return f
 
+        def build_summ(targs):
+            (T,) = targs
+            K = self.mret[0]
+            f = Func('g', pkg)
+            xs, acc, x = Var(P.slot(), 'xs', ('slice', T)), Var(P.slot(), 'acc', K), Var(P.slot(), 'x', T)
+            f.params, f.results = [xs], [Var(P.slot(), 'r', K)]
+            f.body = [Decl([acc], [IntLit(K, 0)]),
+                      RangeSeq('', None, x, VarRef(xs), [OpAssign('add', VarRef(acc), MCall(VarRef(x), 'Ma', [], K))]),
+                      Return([VarRef(acc)])]
+            return f
+
+        def build_twice(targs):
+            (T,) = targs
+            fty = P.sig([T], [T])
+            gm = self.generic_func('Map')
+            inst = self.instance(gm, [T, T])
+            f = Func('g', pkg)
+            sv, fn = Var(P.slot(), 's', ('slice', T)), Var(P.slot(), 'f', fty)
+            f.params, f.results = [sv, fn], [Var(P.slot(), 'r', ('slice', T))]
+            f.body = [Return([Call(inst, [Call(inst, [VarRef(sv), VarRef(fn)]), VarRef(fn)])])]
+            return f
+
         ints = ' | '.join(GO_KIND[k] for k in KINDS)
         spec = {'Map': (['T', 'U'], ['any', 'any'], build_map), 'Fold': (['T', 'A'], ['any', 'any'], build_fold),
-                'At': (['T'], ['any'], build_at), 'Max': (['T'], [ints], build_max)}[name]
+                'At': (['T'], ['any'], build_at), 'Max': (['T'], [ints], build_max),
+                'SumM': (['T'], [lambda cx: 'interface{ Ma() %s }' % go_type(self.mret[0], cx)], build_summ),
+                'Twice': (['T'], ['any'], build_twice)}[name]
+        if name == 'Twice':
+            self.generic_func('Map')       # declared first: it lives in a package that is not later
         g = GenericFunc('%sG%s' % (self.pfx, name), pkg, spec[0], spec[1], spec[2])
         g.symbolic = g.build([('tparam', n) for n in g.tparams])
         P.go_funcs.append(g)
@@ -344,12 +397,14 @@ class ProgGen(Gen):
     def instance(self, g, targs):
         key = tuple(repr_type(t) for t in targs)
         if key not in g.instances:
+            symbolic = any(isinstance(t, tuple) and t[0] == 'tparam' for t in targs)
             f = g.build(targs)
             f.generic = (g, targs)
             f.name = g.name
             f.pkg = g.pkg
             f.cost = 40
-            self.P.add_func(f, printed=False)
+            if not symbolic:                # the symbolic instance only exists for the Go text of a generic caller
+                self.P.add_func(f, printed=False)
             g.instances[key] = f
         return g.instances[key]
 
@@ -422,6 +477,47 @@ class ProgGen(Gen):
                 P.add_func(f, printed=False)
         return d
 
+    def s_iface_chain(self, cx):
+        """type Node struct{ Val K; Next I }; func (n Node) Ma() K recurses through the interface value Next"""
+        r = self.rng
+        P = self.P
+        I = ('named', self.iface_ma)
+        K = self.mret[0]
+        if not hasattr(self, '_node'):
+            d = TypeDecl('%sNode' % self.pfx, 'struct', self.npk)
+            d.fields = [('Val', K, False), ('Next', I, False)]
+            P.add_type(d)
+            f = Func(d.name + '_Ma', d.pkg)
+            f.recv, f.mname, f.pure = (d, False), 'Ma', True
+            m = Var(P.slot(), 'm', ('named', d))
+            f.params, f.results = [m], [Var(P.slot(), 'r', K)]
+            nxt = Sel(VarRef(m), 'Next', I)
+            f.body = [If([], Bin('eq', nxt, Zero(I)), [Return([Sel(VarRef(m), 'Val', K)])], []),
+                      Return([Bin(r.choice(['add', 'sub', 'xor']), Bin('mul', Sel(VarRef(m), 'Val', K), IntLit(K, 3)), ICall(nxt, 'Ma', [], K))])]
+            f.cost = 40
+            P.add_func(f)
+            d.mdecls.append(f)
+            self._node = d
+        d = self._node
+        T = ('named', d)
+        out, prev = [], Zero(I)
+        n = r.randint(1, 4)
+        v = None
+        for i in range(n):
+            v = self.newvar(cx, T, 'n')
+            out.append(Decl([v], [StructLit(T, [self.int_expr(cx, K, 1), prev])]))
+            prev = ToIface(I, Addr(VarRef(v))) if r.random() < 0.4 else ToIface(I, VarRef(v))
+        out.append(Print(True, [MCall(VarRef(v), 'Ma', [], K)]))
+        if self.flat_impls(cx, I) and r.random() < 0.6:
+            # a chain that ends in an ordinary implementation
+            w = self.newvar(cx, T, 'n')
+            out.append(Decl([w], [StructLit(T, [self.int_expr(cx, K, 1), self.iface_value(cx, I)])]))
+            out.append(Print(True, [ICall(ToIface(I, VarRef(w)), 'Ma', [], K)]))
+        self.feat.add('recursion-through-interface')
+        self.charge(cx, 60 * n)
+        self.budget -= len(out)
+        return out
+
     def s_generic(self, cx):
         """a statement group using a generic function or type at random type arguments"""
         r = self.rng
@@ -430,7 +526,7 @@ class ProgGen(Gen):
         c = r.random()
         k1, k2 = tint(self.kind()), tint(self.kind())
         out = []
-        if c < 0.3:
+        if c < 0.22:
             g = self.generic_func('Map')
             U = r.choice([k2, STR, BOOL])
             inst = self.instance(g, [k1, U])
@@ -443,7 +539,7 @@ class ProgGen(Gen):
             out.append(RangeSeq('', kx, e, VarRef(v), [Print(False, [VarRef(kx), StrLit(b"="), VarRef(e), StrLit(b" ")])]))
             out.append(Print(True, [LenCap('len', VarRef(v))]))
             self.charge(cx, 60)
-        elif c < 0.5:
+        elif c < 0.36:
             g = self.generic_func('Fold')
             A = r.choice([k2, STR])
             inst = self.instance(g, [k1, A])
@@ -453,17 +549,41 @@ class ProgGen(Gen):
             out = [Decl([v], [Call(inst, [s, self.expr(cx, A, 1), lit])]), Print(True, [VarRef(v)])]
             cx.add(v)
             self.charge(cx, 60)
-        elif c < 0.65:
+        elif c < 0.46:
             g = self.generic_func('Max')
             inst = self.instance(g, [k1])
             inst.pure = True
             out = [Print(True, [Call(inst, [self.int_expr(cx, k1, 1, nonconst=True), self.int_expr(cx, k1, 1)])])]
-        elif c < 0.8:
+        elif c < 0.56:
             g = self.generic_func('At')
             T = r.choice([k1, STR])
             inst = self.instance(g, [T])
             s = SeqLit(('slice', T), [self.expr(cx, T, 1) for _ in range(r.randint(0, 4))])
             out = [Print(True, [Call(inst, [s, self.int_expr(cx, tint('uint'), 1, nonconst=True), self.expr(cx, T, 1)])])]
+        elif c < 0.72 and [t for t in self.iface_ma.impls if self.type_pkg(t) <= cx.pkg and t[0] == 'named' and not self.has_iface(t)]:
+            # constraint with a method, instantiated at a struct type and at the interface type itself
+            g = self.generic_func('SumM')
+            impls = [t for t in self.iface_ma.impls if self.type_pkg(t) <= cx.pkg and t[0] == 'named' and not self.has_iface(t)]
+            T = r.choice(impls)
+            I = ('named', self.iface_ma)
+            out = [Print(True, [Call(self.instance(g, [T]), [SeqLit(('slice', T), [self.leaf(cx, T, 1) for _ in range(r.randint(0, 3))])])])]
+            if self.flat_impls(cx, I):
+                out.append(Print(True, [Call(self.instance(g, [I]), [SeqLit(('slice', I), [self.iface_value(cx, I) for _ in range(r.randint(1, 3))])])]))
+            self.feat.add('generic-method-constraint')
+            self.charge(cx, 60)
+        elif c < 0.8:
+            g = self.generic_func('Twice')
+            inst = self.instance(g, [k1])
+            lit = self.closure(cx, self.P.sig([k1], [k1]), nstmts=1)
+            v = self.newvar(cx, ('slice', k1), 's')
+            out = [Decl([v], [Call(inst, [SeqLit(('slice', k1), [self.int_expr(cx, k1, 1) for _ in range(r.randint(0, 3))]), lit])])]
+            cx.add(v)
+            v.noappend = True
+            e, kx = self.newvar(cx, k1, 'e'), self.newvar(cx, INT, 'k')
+            out.append(RangeSeq('', kx, e, VarRef(v), [Print(False, [VarRef(kx), StrLit(b"="), VarRef(e), StrLit(b" ")])]))
+            out.append(Print(True, [LenCap('len', VarRef(v))]))
+            self.feat.add('generic-calls-generic')
+            self.charge(cx, 120)
         elif c < 0.9:
             g = self.generic_type('Pair')
             A, B = k1, r.choice([STR, k2, BOOL])
@@ -524,6 +644,8 @@ class ProgGen(Gen):
             self.make_recursive()
         if r.random() < 0.5:
             self.make_counter()
+        if r.random() < 0.5:
+            self.make_variadic()
         for _ in range(r.randint(1, 3)):
             self.make_func(r.random() < 0.3)
         if r.random() < 0.6:
@@ -549,7 +671,10 @@ class ProgGen(Gen):
                 if s:
                     body += s
                     continue
-            if c < 0.22 and self.recovering:
+            if c < 0.16:
+                body += self.s_iface_chain(cx)
+                continue
+            if c < 0.24 and self.recovering:
                 fn = r.choice(self.recovering)
                 v = self.newvar(cx, fn.results[0].ty)
                 body += [Decl([v], [Call(fn, [self.int_expr(cx, fn.params[0].ty, 1), IntLit(INT, r.randint(0, fn.sel_range))])]), Print(True, [VarRef(v)])]
@@ -665,7 +790,7 @@ def go_decls(P, pkg, npk):
         if f.pkg != pkg:
             continue
         if isinstance(f, GenericFunc):
-            tp = '[' + ', '.join('%s %s' % (n, c) for n, c in zip(f.tparams, f.constraints)) + ']'
+            tp = '[' + ', '.join('%s %s' % (n, c(cx) if callable(c) else c) for n, c in zip(f.tparams, f.constraints)) + ']'
             s = f.symbolic
             s.name = f.name
             out.append(s.go_decl(cx, tparams=tp))
